@@ -11,9 +11,9 @@ TABLE = [
     ("tsp", None, 3, 4), ("atsp", None, 3, 4), ("cvrp", None, 3, 4), ("sdvrp", None, 2, 3), ("op", None, 2, 3), ("pctsp", None, 2, 3),
     ("spctsp", None, 2, 3), ("pdp", "free", 2, 4), ("pdp", "depot", 2, 4), ("mtsp", "minmax", 3, 4), ("mtsp", "sum", 3, 4),
     ("svrp", None, 3, 4), ("cvrptw", None, 3, 3),
-] + [("mtvrp", v, 3, 3) for v in ("", "OTW", "BL", "OBLTW")] + [("flp", None, 3, 3), ("mcp", None, 2, 2), ("dpp", None, 4, 4), ("mdpp", None, 4, 4), ("smtwtp", None, 3, 3),
+] + [("mtvrp", v, 3, 3) for v in ("", "OTW", "BL", "OBLTW", "mix:TW/", "mix:/TW")] + [("flp", None, 3, 3), ("mcp", None, 2, 2), ("dpp", None, 4, 4), ("mdpp", None, 4, 4), ("smtwtp", None, 3, 3),
                                                                    ("mdcpdp", "d1", 2, 4), ("mdcpdp", "d2", 2, 2)]
-TABLE_T = [("mtvrp", v, 3, 3) for v in ("O", "B", "L", "TW", "OB", "OL", "BTW", "LTW", "OBL", "OBTW", "OLTW", "BLTW")]
+TABLE_T = [("mtvrp", v, 3, 3) for v in ("O", "B", "L", "TW", "OB", "OL", "BTW", "LTW", "OBL", "OBTW", "OLTW", "BLTW", "mix:OTW/L", "mix:BL/OTW")]
 
 
 def plan(tier, seed):
@@ -22,7 +22,9 @@ def plan(tier, seed):
     for spec, variant, nq, nt in table:
         for n, B in ([(nq, 2)] if tier == "quick" else [(nq, 2), (nt, 2), (nq, 3)]):
             for pos in range(B):
-                if tier == "quick" and pos == 1 and spec == "mtvrp":
+                if tier == "quick" and pos == 1 and spec == "mtvrp" and not (variant or "").startswith("mix:"):
+                    continue
+                if tier == "quick" and pos == 0 and (variant or "").startswith("mix:"):
                     continue
                 jobs.append({"id": f"C04:{spec}[{variant}] n={n} B={B} row={pos}", "module": "vf.episodes", "func": "independence_job",
                              "params": dict(spec=spec, variant=variant, n=n, B=B, pos=pos)})
@@ -73,6 +75,27 @@ def confirm(rp, resp):
             return True, f"reward of row {pos}: alone {rs} vs in batch (with padding / batch-mates) {rb}"
     if "reward_error" in b and "reward_error" not in s:
         return True, "batched reward raised: " + b["reward_error"]
+    # the model may owe its difference to the distance abstraction (no exact model exists for 2-D geometry): look for a real
+    # discrepancy on generator instances in the same batch composition (randomised, seeded by this counterexample's job)
+    if rp.get("spec") not in ("dpp", "mdpp") and not rp.get("no_search"):
+        from .. import core
+        from .. import envs as EV
+
+        sp = EV.SPECS[rp["spec"]]
+        n, variant = rp["n"], rp["variant"]
+        if rp["spec"] not in ("flp", "mcp", "smtwtp", "mdcpdp"):
+            n = max(n, 10)  # longer routes: effects that need accumulated time / length show up on random instances
+        req = {"kind": "pair_search", "env": {"module": sp.module, "cls": sp.cls, "kwargs": sp.env_kwargs(n, variant)}, "B": B, "pos": pos, "tries": 200}
+        if (variant or "").startswith("mix:"):
+            vs = variant[4:].split("/")
+            req["row_envs"] = [{"module": sp.module, "cls": sp.cls, "kwargs": sp.env_kwargs(n, vs[r % len(vs)])} for r in range(B)]
+        try:
+            found = core.torch_run([req])[0]
+        except Exception as e:  # noqa: BLE001
+            found = {"error": repr(e)}
+        if found.get("violation"):
+            resp["search"] = found
+            return True, found["violation"] + f" (real generator instance, seed {found['seed']}, found by the search seeded by the solver's counterexample)"
     return False, "solo and batched runs agree on real torch"
 
 
